@@ -1055,7 +1055,14 @@ func (c *Conn) handleBdat(arg string) {
 	}
 
 	chunk := io.LimitReader(c.text.R, int64(size))
-	_, err := io.Copy(c.bdatPipe, chunk)
+	n, err := io.Copy(c.bdatPipe, chunk)
+	if err == nil && n < int64(size) {
+		// The connection was lost inside the chunk, so the message is
+		// incomplete: abort the transfer (the backend's reader fails with
+		// ErrDataReset) instead of passing off what arrived as the whole chunk.
+		c.reset()
+		return
+	}
 	if err != nil {
 		// Backend might return an error early using CloseWithError without consuming
 		// the whole chunk.
